@@ -143,9 +143,12 @@ def qwp (pre : Path) : List El → List (Path × Q)
 def expBind (x : Path × Q) : Bind :=
   { path := x.1, calculate := if !x.2.trigger.isEmpty || x.2.calcu.isEmpty then none else some (sub x.1 x.2.calcu) }
 
-theorem binds_eq : ∀ (els : List El) (pre : Path), binds sub pre els = (qwp pre els).map (expBind sub)
+theorem binds_eq : ∀ (els : List El) (pre : Path),
+    binds sub pre els = (qwp pre els).flatMap fun x => if x.2.hasBind then [expBind sub x] else []
   | [], _ => by simp [binds, qwp]
-  | .q d :: rest, pre => by simp [binds, qwp, qBind, expBind, binds_eq rest pre]
+  | .q d :: rest, pre => by
+    simp only [binds, qwp, List.flatMap_cons, binds_eq rest pre]
+    cases d.hasBind <;> simp [qBind, expBind]
   | .grp n ks :: rest, pre => by simp [binds, qwp, binds_eq ks (pre ++ [n]), binds_eq rest pre]
   | .rep n ks :: rest, pre => by simp [binds, qwp, binds_eq ks (pre ++ [n]), binds_eq rest pre]
 
@@ -827,5 +830,17 @@ theorem accepted_trigger_visible_aux (els : List El) (pre : Path) (h : check dyn
         split at hue
         · rename_i hctl; simp [shown, hh', hctl]
         · cases hue
+
+
+/-! ## interface lemmas for composition (`Pyxv.Convert`): the four parts of `gen` -/
+
+@[simp] theorem gen_inst (root : Str) (els : List El) :
+    (gen dyn sub root els).inst = .node root false [] (instKids dyn false els) := rfl
+@[simp] theorem gen_modelSets (root : Str) (els : List El) :
+    (gen dyn sub root els).modelSets = modelSets dyn sub [root] els := rfl
+@[simp] theorem gen_binds (root : Str) (els : List El) :
+    (gen dyn sub root els).binds = binds sub [root] els := rfl
+@[simp] theorem gen_body (root : Str) (els : List El) :
+    (gen dyn sub root els).body = body dyn sub (pathOf (qPaths [root] els)) (trigTable els) [root] els := rfl
 
 end Pyxv.Defaults
